@@ -38,7 +38,7 @@ Verdict(r) ==
          ELSE "ok"
     [] r.fn = "json" ->
          IF r.payload_encode_ok /\ r.payload_bytes_equal /\ r.footer_encode_ok /\ r.footer_bytes_equal
-            /\ r.payload_decode_equal /\ r.footer_decode_equal /\ r.bad_agrees THEN "ok" ELSE "json-wrapper-not-transparent"
+            /\ r.payload_decode_equal /\ r.footer_decode_equal /\ r.bad_agrees /\ r.framed_agree THEN "ok" ELSE "json-wrapper-not-transparent"
     [] r.fn = "footer-empty" ->
          IF ~r.json_accepts_empty /\ r.unit_accepts_empty /\ ~r.unit_accepts_nonempty THEN "ok" ELSE "empty-footer-rule"
     [] OTHER -> "unknown-record"
